@@ -57,10 +57,10 @@ CHECKS["C20"] = dict(
 )
 _BISYNC_NOTE = "Trusted: Verus+Z3, extractor rules (R2/R3/R5/R7/R9/R11), the ghost file-system world model (atomic rename, non-atomic copy/write only on staging names, durability only after sync_all), std::path algebra, serde_json and the tree scan by contract. Partial where stated: multi-run induction and whole-tree equality are not mechanised."
 CHECKS["C07"] = dict(
-    text="Verus proofs on extracted Archive::load (Some only for the file at that path with matching pair and version), apply (unlink only on Delete*) and run_bisync (no trusted archive ==> no unlink effect in the world log), plus a history twin on the real binary for the archive-fault scenarios.",
+    text="Verus proofs on extracted Archive::load (Some only for the file at that path with matching pair and version), apply (unlink only on Delete*) and run_bisync (no trusted archive ==> no unlink effect in the world log), root_pair_hash (hex of BLAKE3 over canon(a) NUL canon(b), with an injectivity lemma under 'no collision'), plus a history twin on the real binary for the archive-fault scenarios.",
     note=_BISYNC_NOTE, technique="Verus contracts against a ghost file-system world (effect log)", design_ref="DESIGN.md §3 C02/C06/C07/C08")
 CHECKS["C08"] = dict(
-    text="Effect discipline proved against the ghost world: non-atomic writes only on staging names, live paths change only by rename of a FLUSHED staging file (primitive preconditions), Archive::save publishes a flushed temp by rename, run_bisync renames the archive only after every data rename; crash points are the boundaries between primitives, covered by per-primitive frame clauses rather than enumeration.",
+    text="Effect discipline proved against the ghost world: non-atomic writes only on staging names, live paths change only by rename of a FLUSHED staging file (primitive preconditions), Archive::save publishes a flushed temp by rename, run_bisync renames the archive only after every data rename; crash points are the boundaries between primitives, covered by per-primitive frame clauses rather than enumeration. The two-run clause (re-running after a kill converges to the uninterrupted result) has no contract: a BOUNDED enumeration on the real binary stands in - bisync killed right before every one of its file-system write calls, two setups covering all seven action kinds.",
     note=_BISYNC_NOTE, technique="Verus contracts against a ghost file-system world (frame + effect-order clauses)", design_ref="DESIGN.md §3 C02/C06/C07/C08")
 CHECKS["C02"] = dict(
     text="Per-action 'no version lost' contract of apply (content + whole-world frame), the H7 side condition as a call-site obligation in run_bisync, and the no-stale-entry invariant of the recorded state; a history twin on the real binary replays concrete loss scenarios.",
@@ -72,7 +72,7 @@ _SERVE_NOTE = "Trusted: Verus+Z3 / Kani+CBMC, extractor rules, ghost world with 
 CHECKS["C04"] = dict(text="Contracts on every Rust function that decides WHAT a recursive one-way sync does to the destination: the plan (build_plan, needs_transfer, is_excluded, glob_match: Verus + Kani, unbounded), one delivery (deliver_local, deliver_pull: frame, bytes, mtime), the delete application (apply_remote_deletes: exactly the planned unlinks locally; remotely ONE command whose xargs-cut argument list is exactly the planned paths) and the remote directory list (create_remote_dirs). The end-to-end statement over the orchestration functions and the remote shell has no contract; a BOUNDED run on the real binary stands in (15 awkward names incl. newlines, 4 destination states, 5 flag sets, 3 directions).",
                      note="Trusted: how xargs cuts its input (assumed), the one-way world, R3'/R5 shims, the path grammar. H12 (newline-delimited xargs lists: a stale name with a newline was not deleted while another file - or one in the remote working directory - was, exit 0) was found here and fixed in /repo 0e5c8c2; the pre-fix code fails apply_remote_deletes' push postcondition.",
                      technique="Verus contracts on plan, delivery, delete application and remote list encoding (ghost remote-command log); bounded end-to-end run on the real binary", design_ref="DESIGN.md §3 C04")
-CHECKS["C14"] = dict(text="The per-file chain behind 'an unchanged tree is never re-sent', as contracts on the real functions: the quick check needs_transfer/build_plan selects a file exactly when it is absent or differs in size or whole-second mtime (Verus + Kani, shared with C19); deliver_local/deliver_pull leave the delivered file with the planned whole-second mtime (Verus, against the one-way world extended with mtimes); lemma: such a file is not selected again. The two-run, three-direction statement itself is exercised by a BOUNDED twin on the real binary (sub-second, epoch and far-future mtimes).",
+CHECKS["C14"] = dict(text="The per-file chain behind 'an unchanged tree is never re-sent', as contracts on the real functions: the quick check needs_transfer/build_plan selects a file exactly when it is absent or differs in size or whole-second mtime (Verus + Kani, shared with C19); set_local_mtime stamps epoch + max(secs, 0) and deliver_local/deliver_pull leave the delivered file with the planned whole-second mtime (Verus, against the one-way world extended with mtimes); lemma: such a file is not selected again. The two-run, three-direction statement itself is exercised by a BOUNDED twin on the real binary (sub-second, epoch and far-future mtimes).",
                      note="Trusted: set_local_mtime/mtime_secs and the discover_* functions by contract; the one-way world. Not decided by contract: the orchestration functions, the push direction and the remote listing (shell).",
                      technique="Verus contracts (quick check; mtime postcondition of delivery; composition lemma) + Kani (needs_transfer); bounded second-run twin on the real binary", design_ref="DESIGN.md §3 C14")
 CHECKS["C13"] = dict(text="Verus contract on the extracted hub_sync over a ghost request log: after the List the run sends only compare-and-swap Puts, one for each local file whose listed hash differs, with expected == the listed hash and the local fingerprint as content hash; up-to-date files are skipped; Ok iff every needed Put was committed. That is the client-side half of the property for ONE run; the hub-side half is C03/C10. A run twin on the real binary (quiet hub, immediate second run, forced stale listing) validates the assumed HubClient contract.",
@@ -83,7 +83,7 @@ CHECKS["C09"] = dict(text="local->local and pull: Verus contracts on the extract
                      technique="Verus contracts against a ghost crash world (effect-log prefixes) for local/pull; bounded kill-point enumeration on the real binary for push", design_ref="DESIGN.md §3 C09")
 CHECKS["C03"] = dict(text="cas_decide proved complete by Kani on the unedited wire.rs; atomic-section contracts of handle_put / handle_delete against a ghost world with a commit lock (compare and commit under one lock, acknowledged only if the rename happened); deterministic two-server sessions on the real binary as witnesses.",
                      note=_SERVE_NOTE, technique="Kani harness + Verus contracts against a ghost world with lock/ownership; session twin", design_ref="DESIGN.md §3 C03/C10/C11/C12")
-CHECKS["C10"] = dict(text="Verus contracts: a live hub path only ever receives the rename of a fully written, flushed, hash-verified, process-private staging file; hash mismatch changes no live path; Get takes length, hash and content from one open file. Session twin with forced interleavings on the real binary.",
+CHECKS["C10"] = dict(text="Verus contracts: a live hub path only ever receives the rename of a fully written, flushed, hash-verified, process-private staging file; hash mismatch changes no live path; Get takes length, hash and content from one open file. Session twin with forced interleavings on the real binary. The quantifier over ALL kill points of a run is not a Verus obligation: a BOUNDED enumeration on the real binary stands in (one server killed before every one of its write calls, four sessions).",
                      note=_SERVE_NOTE, technique="Verus contracts against a ghost world with lock/ownership; session twin", design_ref="DESIGN.md §3 C03/C10/C11/C12")
 CHECKS["C11"] = dict(text="Verus contract of safe_join over an assumed std::path component grammar (Some only for relative paths without '..', result = root joined with the request path) and 'every file-system primitive gets a path derived from safe_join's result'; refused request changes nothing and drains its content. Session twin with escape attempts on the real binary.",
                      note=_SERVE_NOTE, technique="Verus contracts (confinement precondition on every world primitive); session twin", design_ref="DESIGN.md §3 C03/C10/C11/C12")
